@@ -59,12 +59,15 @@ Definition st0 : state := mkState [] (PM.empty block) 1%positive (PM.empty tenso
 Definition value_of (r : res (value * list event)) : option F :=
   match r with Ok (VFloat f, _) => Some f | _ => None end.
 
+Definition both_finite_and_different (r1 r2 : res (value * list event)) : bool :=
+  match value_of r1, value_of r2 with
+  | Some a, Some b => is_finite a && is_finite b && negb (Feqb a b)
+  | _, _ => false
+  end.
+
 Theorem rotate_changes_binary64_value :
-  exists a b, value_of (eval st0 k_c06_1_float) = Some a /\
-              value_of (eval st0 (rotate k_c06_1_float)) = Some b /\
-              Feqb a b = false.
-Proof. eexists; eexists. split; [vm_compute; reflexivity |]. split; [vm_compute; reflexivity |].
-  vm_compute. reflexivity. Qed.
+  both_finite_and_different (eval st0 k_c06_1_float) (eval st0 (rotate k_c06_1_float)) = true.
+Proof. vm_compute. reflexivity. Qed.
 
 (** Outside the typing guard the printer is wrong in other ways (no finding: such trees are
     ill-typed for the IR machine and for the LLVM back end): [a == (b == c)] prints as
